@@ -120,7 +120,7 @@ func c06Body(c *Ctx, cs *c06Case) func(x *Exec) {
 			c06Violate(c, cs, x, "original-modified-by-duplicate", "duplicating modified the original")
 			return
 		}
-		if msg := wellFormed(d); msg != "" && len(d.Genes) > 0 {
+		if msg := wellFormed(d); msg != "" && len(d.Genes) > 0 && wellFormed(cs.State.Build()) == "" {
 			c06Violate(c, cs, x, "copy-ill-formed", "the copy is not well-formed: "+msg)
 			return
 		}
@@ -174,7 +174,10 @@ func c06Corners() []*GenomeSpec {
 			d.Nodes[i].Act = 5 + d.Nodes[i].Act
 		}
 	}
-	return []*GenomeSpec{a, b, d, modularSeed(true), modularSeed(false)}
+	// two modules, one of them disabled; and a genome with unsorted nodes and genes
+	two := modularSeed(true)
+	two.Modules = append(two.Modules, ModuleSpec{Innov: 9, Mut: 2.5, En: false, NodeID: 8, Act: 22, Trait: 2, Inputs: []int{2, 5}, Outputs: []int{6, 4}, InW: []float64{1, 1}, OutW: []float64{1, 1}})
+	return []*GenomeSpec{a, b, d, modularSeed(true), modularSeed(false), two, unsortedSeed()}
 }
 
 func runC06(c *Ctx) {
